@@ -23,7 +23,7 @@ CLAIMED = {
        "run on the operator table regenerated from parser/src/lib.rs groups each as the 14-level table regenerated from "
        "docs/operators.md prescribes; table = doc table level by level with associativity; grammar alternatives are all in the "
        "table with the right affix; ordered choices never split a multi-character operator; Rule->BinOperator map total, injective, "
-       "display = grammar literal. UNBOUNDED (Thm/C14Gen): for an operand / binary-operator chain of ANY length, whatever the Pratt loop answers reads "
+       "display = grammar literal. UNBOUNDED (Thm/C14Gen): for an operand / binary-operator chain of ANY length the Pratt loop answers a tree within the fuel `parse` gives it and without reaching one of its panics (parse_chain_total), the tree reads "
        "back as the chain, and at EVERY node `l o r` of the tree an operator at the root of `l` binds tighter than `o` or equally tight on a "
        "left-associative level, one at the root of `r` tighter or equally tight on a right-associative level (parse_chain_flatten, "
        "parse_chain_grouping: induction over the loop with the invariants `the next operator does not bind tighter than rbp` and `the root binds "
